@@ -263,6 +263,11 @@ ADDENDA = {
         'its seat, answers, awaits "ready for teams", signals, passes the barrier and sends the Teams message built from the table after the barrier '
         '(seat_connect_translated, seat_connect_not_ready_translated, seat_connect_matches_connectR); Translated/ThreadsMainC.lean: the translated accept loop performs one accept round (accept, new thread, start, wait for the verdict, sleep, is_alive, clear) per served connection until the table is full and keeps the threads found alive (main_accept_loop_translated). In the admission sessions of this check every '
         'connection thread (seated or refused) and the accept loop are compared with the translated program.',
+ 'C17': ' The PBN parser itself is TRANSLATED on every run (data_handler/pbn_handler/parser.py -> Generated/PyCorePbn.lean: extract_content, parse_board, the '
+        'generator parse_stream, parse_all, parse_board_settings) and the translated program reads the generated import files and PBN-ish soup exactly as '
+        'the real parser does (same boards, same exception class); no theorem yet relates the translated parser to the hand-written model — the unbounded '
+        'theorems are about the model, tied by correspondence.',
+ 'C18': ' The PBN parser is TRANSLATED on every run (Generated/PyCorePbn.lean) and reads the export texts of this check exactly as the real parser does.',
  'C10': ' The seat thread that sends these streams is also covered as TRANSLATED code (see C09: Generated/PyCoreThreads.lean, Translated/ThreadsSeat*.lean). '
         'Refused actions (an illegal call, a card not held, a card already played) are exercised too: nobody may be told about an action that was not accepted.',
  'C13': ' The operator\'s interrupt is also delivered as a REAL signal (harness/sigint_smoke.py: Server.run in the main thread of a child process over loopback '
